@@ -293,6 +293,18 @@ pub fn set_unsupported(msg: String) {
     }
 }
 
+/// The next `io_uring_enter` that consumed nothing fails with this errno
+/// instead of waiting (0: no injection). Set from inside an enter hook.
+static FAIL_ENTER: std::sync::atomic::AtomicI32 = std::sync::atomic::AtomicI32::new(0);
+
+pub fn fail_next_enter(errno: i32) {
+    FAIL_ENTER.store(errno, Ordering::SeqCst);
+}
+
+pub(crate) fn take_fail_enter() -> i32 {
+    FAIL_ENTER.swap(0, Ordering::SeqCst)
+}
+
 pub fn take_unsupported() -> Option<String> {
     UNSUPPORTED.lock().unwrap_or_else(|e| e.into_inner()).take()
 }
